@@ -15,7 +15,8 @@ Driver for stream `blocks` (C06): one op per line, one observation per line.
                                              -> ok                  (what the stand-alone tx verification reads)
   rec <hash> tx | rec <hash> stub <idx> <name>@<idx>+...   -> ok   (what is stored on chain under a hash)
   verifytx <tx>                              -> ok | err:<class>    (VerifyTx: off-chain entry, empty pool)
-  addblock idx= sre= hash= prev= ts= nc= psr= wit= prim= mroot= newroot= store= txs=<tx>,..|- txh=<32-byte tx hash, hex>,..|-
+  relevant conf=<b> <tx>                     -> kept | dropped      (did the pooled tx survive the tip block: RemoveStale / IsTxStillRelevant)
+  addblock idx= sre= hash= prev= ts= nc= psr= wit= prim= mroot= newroot= txs=<tx>,..|- txh=<32-byte tx hash, hex>,..|-
         (mroot = digest of the header's MerkleRoot; the model computes the root of txh with double SHA-256)
         tx = id:wit:sys:net:vub:size:scriptok:<signer>+..:<attr>+..|-
         signer = name/<scope None>/<s<hashOk><native><scriptsOk><result>.<cost> | m | x>
@@ -177,7 +178,6 @@ def doAddBlock (st : DState) (ws : List String) : Option (DState × String) := d
   let txhS ← kv ws "txh"
   let txh ← if txhS == "-" then some [] else (txhS.splitOn ",").mapM Hex.decode
   let newroot ← hexNat (← kv ws "newroot")
-  let store ← bit (← kv ws "store")
   let txsS ← kv ws "txs"
   let txv ← if txsS == "-" then some [] else (txsS.splitOn ",").mapM parseTx
   let hdr : Header := { index := idx, hash := hash, prevHash := prev, merkleRoot := mroot, ts := ts,
@@ -197,7 +197,7 @@ def doAddBlock (st : DState) (ws : List String) : Option (DState × String) := d
     merkle := fun ids => digest6 (realMerkle (ids.map full)),
     txValid := fun _ _ t => (why t).isNone,
     balance := fun _ a => balOf st a,
-    apply := fun _ _ => if store then some newroot else none,
+    apply := fun _ blk => if burnOK (balOf st) blk.txs then some newroot else none,
     rootOf := fun l => l,
     keep := fun _ _ => true,
     spoil := fun l _ => l,    -- follow-ups of a failed execution are not tied (see `note`)
@@ -288,6 +288,11 @@ def step (st : DState) (ws : List String) : DState × String :=
     match doRec st rest with
     | some st' => (st', "ok")
     | none => (st, "bad-op")
+  | ["relevant", cf, tok] =>
+    match parseTx tok, (kv [cf] "conf").bind bit with
+    | some v, some conf =>
+      (st, if keptInPool (chainOf st) (balOf st (v.toTx).sender) v conf then "kept" else "dropped")
+    | _, _ => (st, "bad-op")
   | ["verifytx", tok] =>
     match parseTx tok with
     | some v =>
